@@ -6,7 +6,7 @@
    that each decoder's network (create_tn) has the coset sum as its value is NOT proved in Coq: it is
    checked by harness/c10.py against the exact sums on every generated case. *)
 From Coq Require Import List Arith Lia Bool ZArith.
-From QV Require Import Core.Bits Tensor.Sums Tensor.Coset.
+From QV Require Import Core.Bits Core.Pauli Core.Symp Tensor.Sums Tensor.Coset.
 Import ListNotations.
 Local Open Scope nat_scope.
 
@@ -46,11 +46,16 @@ Proof. intros. split; [apply h_node_is_prob|reflexivity]. Qed.
 Definition c10_network_statement (K : cring) (network_value : dist K -> nat -> list bsf -> bsf -> K) : Prop :=
   forall d n gens f, Forall (fun g => length g = n + n) gens -> indep (n + n) gens ->
     network_value d n gens f = coset_prob K d n gens f.
-(* the four candidates f, f.X, f.X.Z, f.Z exhaust the errors with the syndrome of f (one logical qubit) *)
+(* the four candidates f, f.X, f.X.Z, f.Z exhaust the errors with the syndrome of f: for a stabilizer code
+   with one logical qubit (n - 1 independent commuting generators, logicals lx, lz commuting with them and
+   anticommuting with each other), every e with the syndrome of f lies in exactly one of the four cosets *)
 Definition c10_four_cosets_statement : Prop :=
-  forall n (gens : list bsf) (lx lz f e : bsf) (commutes : bsf -> bsf -> bool),
-    (forall g, In g gens -> commutes e g = commutes f g) ->
-    exists c, In c [f; xorv f lx; xorv (xorv f lx) lz; xorv f lz] /\ In (xorv e c) (span_list (n + n) gens).
+  forall n (gens : list bsf) (lx lz f e : bsf),
+    Forall (fun g => length g = n + n) (lx :: lz :: f :: e :: gens) -> indep (n + n) gens -> S (length gens) = n ->
+    (forall g h, In g gens -> In h gens -> bsp g h = false) ->
+    (forall g, In g gens -> bsp lx g = false /\ bsp lz g = false) -> bsp lx lz = true ->
+    (forall g, In g gens -> bsp e g = bsp f g) ->
+    exists! c, In c [f; xorv f lx; xorv (xorv f lx) lz; xorv f lz] /\ In (xorv e c) (span_list (n + n) gens).
 
 (* non-vacuity: the four-qubit [[4,2,2]]-style pair XXXX, ZZZZ on 4 qubits, depolarizing numerators 7,1,1,1 *)
 Example c10_example :
